@@ -12,7 +12,9 @@ def main():
     for stream in job['streams']:
         res = {'messages': [], 'error': ''}
         try:
-            for m in generate_bufr_message(Decoder(), bytes(stream)):
+            dec = Decoder(compiled_template_cache_max=job['cache']) if job.get('cache') is not None else Decoder()
+            kw = {'filter_expr': job['filter']} if job.get('filter') else {}
+            for m in generate_bufr_message(dec, bytes(stream), **kw):
                 if m.data_category.value == 11:
                     continue
                 td = m.template_data.value
